@@ -163,6 +163,20 @@ class Target:
         peak = tracemalloc.get_traced_memory()[1] - base
         return kind, val, steps, peak
 
+    def accepted_other_engine(self):
+        """Discovery mode: a request followed the (mutated) discovery reply and it
+        names an engine id other than the agent's, i.e. the reply was accepted as
+        data."""
+        reqs = self.w.seam.requests
+        for raw in reqs[1:]:
+            try:
+                m = ber.decode_message(raw)
+            except ber.BerError:
+                continue
+            if m["version"] == 3 and m["usm"]["engine_id"] not in (b"", self.w.agent.engine_id):
+                return True
+        return False
+
     def followup(self):
         self.w.seam.reset(budget=30)
         try:
@@ -210,6 +224,9 @@ class Target:
 
 class TrapTarget:
     """The trap listener's datagram path, on a virtual loop with a fake endpoint."""
+
+    def accepted_other_engine(self):
+        return False
 
     level, mode = "v2c", "trap"
 
@@ -393,10 +410,19 @@ def run_case(R, t, kind, pos, data, variant):
         R.violation(case, "; ".join(what) + "; non-advancing TLV slices observed inside the BER library: %d" % NONADV[0], mech)
     else:
         R.mon["cases_within_budget"] += 1
-    if not t.followup():
+    if t.mode == "discovery" and t.accepted_other_engine():
+        # The mutated discovery reply was ACCEPTED as well-formed discovery data
+        # naming another engine id (it raised nothing); that the real agent then
+        # refuses the client's requests is a consequence of the data, not of an
+        # exception, and outside this property (discovery replies are not
+        # authenticated: C12/C09 own what may be trusted).
+        R.mon["discovery_accepted_other_engine_id"] += 1
+    elif not t.followup():
         R.violation(case, "the client is no longer usable: a valid follow-up request failed after this datagram (%s)" % outcome, None)
     else:
         R.mon["followup_ok"] += 1
+    if R.evaluations % 1201 == 7 and len(data) <= 400:
+        R.samples.append({k: case[k] for k in ("level", "mode", "fault", "pos", "variant", "len", "datagram")} | {"outcome": outcome if outcome != "exc" else repr(val)[:100], "steps": steps, "heap_peak": peak}) if len(R.samples) < 6 else None
 
 
 def target_plan(tier):
